@@ -816,6 +816,11 @@ func (f *STFS) Rename(oldname, newname string) error {
 		f.onHeader,
 	)
 	if err == nil {
+		// Renaming an entry onto itself changes nothing
+		if target.Name == source.Name && target.Linkname == source.Linkname {
+			return nil
+		}
+
 		if target.Typeflag != source.Typeflag {
 			return os.ErrExist
 		}
